@@ -535,6 +535,40 @@ impl Range {
     }
 }
 
+/// Raw view of one bound of a [Range] alternative (verification hook).
+#[cfg(feature = "verif-hooks")]
+#[derive(Clone, Debug, Eq, PartialEq)]
+pub enum VerifBound {
+    Unbounded,
+    Including(Version),
+    Excluding(Version),
+}
+
+#[cfg(feature = "verif-hooks")]
+impl Range {
+    /// Verification hook: the ordered list of `(lower, upper)` bounds of the
+    /// alternatives of this range, exactly as stored. Read-only.
+    pub fn verif_bounds(&self) -> Vec<(VerifBound, VerifBound)> {
+        fn conv(b: &Bound) -> VerifBound {
+            match b {
+                Bound::Lower(Predicate::Unbounded) | Bound::Upper(Predicate::Unbounded) => {
+                    VerifBound::Unbounded
+                }
+                Bound::Lower(Predicate::Including(v)) | Bound::Upper(Predicate::Including(v)) => {
+                    VerifBound::Including(v.clone())
+                }
+                Bound::Lower(Predicate::Excluding(v)) | Bound::Upper(Predicate::Excluding(v)) => {
+                    VerifBound::Excluding(v.clone())
+                }
+            }
+        }
+        self.0
+            .iter()
+            .map(|bs| (conv(&bs.lower), conv(&bs.upper)))
+            .collect()
+    }
+}
+
 impl fmt::Display for Range {
     fn fmt(&self, f: &mut fmt::Formatter<'_>) -> fmt::Result {
         for (i, range) in self.0.iter().enumerate() {
